@@ -5,14 +5,14 @@
      delete idiom append(items[:i], items[i+1:]...), Insert (append(nil) + copy + store) and Reverse work
      in place on the array, exactly as the Go code does; the abstract list is [firstn len arr].
    * One interpreter [step] runs operation sequences over a store of container objects.  It is
-     parameterised by the list representation ([lops]) and by [idx_alias], which says whether list.map
-     hands every callback the same index object (the code does: `var index Int ... &index`).
-     [cstep] = Go slices + aliasing (faithful to the code); [astep] = plain lists, fresh index (the
-     reference containers of the property).
+     parameterised by the list representation ([lops]).  [cstep] = Go slices (faithful to the code);
+     [astep] = plain lists (the reference containers of the property).  list.map hands every callback a
+     fresh index object (fix 13e5047), so an index that escapes the callback keeps its value.
    * Elements are immutable [Ops.value] trees; the mutable objects are the ones in the store.
    * Maps and sets are Go maps: association / member lists with distinct keys, order irrelevant
      (every observation sorts).
-   * byte_slices have their own store with a heap of backing arrays, because GetSlice shares the array.
+   * byte_slices have their own store with a heap of backing arrays; every operation that creates a
+     byte_slice, GetSlice included (fix ee24db1), allocates a new array.
    * Strings are byte strings; indexing and slicing go through []rune(s) as in the code. *)
 From Coq Require Import List Bool ZArith Lia.
 Require Import RV.model.Ops.
@@ -280,7 +280,7 @@ Definition sort_full (l : list value) : list value * bool * bool :=
   let '(rp, er, pn) := isort_rev (fun v => v) l [] false false in (rev rp, er, pn).
 
 Section Step.
-  Context {T : Type} (LO : lops T) (idx_alias : bool).
+  Context {T : Type} (LO : lops T).
 
   Definition store := list (obj T).
 
@@ -289,8 +289,7 @@ Section Step.
   Definition new_list (s : store) (l : list value) : store * outcome := alloc s (OList (of_list LO l)).
 
   Definition map_cb_result (cb : mapcb) (l : list value) : list value :=
-    let n := length l in
-    let idx (i : nat) := if idx_alias then VInt (Z.of_nat (pred n)) else VInt (Z.of_nat i) in
+    let idx (i : nat) := VInt (Z.of_nat i) in      (* mapArgs[0] = NewInt(int64(i)) *)
     let fix go (i : nat) (xs : list value) : list value :=
       match xs with
       | [] => []
@@ -687,23 +686,18 @@ Section Step.
     end.
 End Step.
 
-(* the code: Go slices, one index object for all callbacks of a list.map *)
-Definition cstep := step go_lops true.
-Definition crun := run go_lops true.
+(* the code: Go slices *)
+Definition cstep := step go_lops.
+Definition crun := run go_lops.
 (* the reference containers *)
-Definition astep := step ref_lops false.
-Definition arun := run ref_lops false.
+Definition astep := step ref_lops.
+Definition arun := run ref_lops.
 
 Definition abs_obj (o : obj gslice) : obj (list value) :=
   match o with OList t => OList (g_abs t) | OMap m => OMap m | OSet s => OSet s end.
 Definition abs_store (s : list (obj gslice)) : list (obj (list value)) := map abs_obj s.
 
 Definition wf_obj (o : obj gslice) : Prop := match o with OList t => g_wf t | _ => True end.
-
-(* the defect class: list.map with a callback that lets its index argument escape *)
-Definition escapes_index (o : op) : bool :=
-  match o with MapCb _ CbIdx | MapCb _ CbPair => true | _ => false end.
-Definition no_escape (ops : list op) : bool := forallb (fun o => negb (escapes_index o)) ops.
 
 (* operations that must leave every existing object alone *)
 Definition readonly (o : op) : bool :=
@@ -801,9 +795,8 @@ Definition bstep (st : bstate) (o : bop) : bstate * outcome :=
       | Some bo =>
           match resolve_slice lo hi (Z.of_nat (b_len bo)) with
           | Ok (a, b) =>
-              (* NewByteSlice(b.value[start:stop]): the same backing array *)
-              (BS (b_heap st) (b_objs st ++ [BO (b_arr bo) (b_off bo + Z.to_nat a) (Z.to_nat b - Z.to_nat a)]),
-               RRef (length (b_objs st)))
+              (* result := make([]byte, stop-start); copy(result, b.value[start:stop]) *)
+              b_alloc st (firstn (Z.to_nat b - Z.to_nat a) (skipn (Z.to_nat a) (b_view st bo)))
           | Er e => (st, RErr e)
           end
       | None => (st, RUnsup)
@@ -924,6 +917,3 @@ Fixpoint rbrun (st : list (list Z)) (ops : list bop) : list (list Z) * list outc
   end.
 
 Definition babs (st : bstate) : list (list Z) := map (b_view st) (b_objs st).
-
-Definition is_bset (o : bop) : bool := match o with BSetItem _ _ _ => true | _ => false end.
-Definition is_bslice (o : bop) : bool := match o with BSlice _ _ _ => true | _ => false end.
